@@ -183,8 +183,8 @@ func vsymC31Setup(hashers *[]*vsymC31Hasher) {
 func VsymC31_Rewrite() {
 	nt, np, nb, nr := vsym_Param("topics"), vsym_Param("partitions"), vsym_Param("batches"), vsym_Param("records")
 	fs3 := &vsymC31S3{objs: map[string][]byte{}}
-	if nb*nr > vsym_Param("maxrecords") {
-		return // (the larger shapes are left to the thorough tier)
+	if nt*np*nb*nr > vsym_Param("maxrecords") {
+		return // (at most this many records in the whole request: the product of shapes is too large otherwise)
 	}
 	var vsymC31Hashers []*vsymC31Hasher // (a local, not a package variable)
 	vsymC31Setup(&vsymC31Hashers)
